@@ -530,6 +530,93 @@ theorem predict_full_spec_window_one {α σ} (mul : α → σ → α) (layout : 
   predict_full_spec mul layout hl world rank bs hbs key fwd scale recon deliver
     (fun b => by have := hd b; rw [windowOrders_one] at this; simpa using this) out hout
 
+/-! ### the hypotheses of `predict_full_spec` discharged for the two supported `crop` values -/
+
+/-- `crop=None` (or `""`): **unconditional** — for every layout of non-empty volumes, world size, rank,
+batch size, in-order loader, model outputs of any (per-item) shapes, scaling factors and headers, rank
+`rank` yields exactly its volumes, each once, slice `k` = model output of the volume's `k`-th item times
+that item's scaling factor. -/
+theorem predict_full_no_crop {α σ} (mul : α → σ → α) (layout : List Nat) (hl : ∀ n ∈ layout, 0 < n)
+    (world rank bs : Nat) (hbs : 0 < bs) (fwd : Nat → Img α) (scale : Nat → σ) (recon : Nat → List Nat)
+    (deliver : Loader) (hd : InOrder deliver) :
+    predictFull mul layout world rank bs .none fwd scale recon deliver =
+      ((rankVols layout world rank 0).map fun v =>
+        (v.indices.map fun i => (fwd i).map fun row => row.map (mul · (scale i)), v.id), none) := by
+  have h0 : predictFull mul layout world rank bs .none fwd scale recon deliver =
+      predictFull mul layout world rank bs .none fwd scale (fun _ => []) deliver := rfl
+  rw [h0]
+  exact predict_full_spec mul layout hl world rank bs hbs .none fwd scale (fun _ => []) deliver hd
+    (fun i => (fwd i).map fun row => row.map (mul · (scale i)))
+    (fun v _ => ⟨none, rfl, fun i _ => ⟨rfl, rfl⟩⟩)
+
+/-- **Across ranks, with the processing inside**: for `crop=None` the outputs of ranks `0 … world-1`
+together are every volume of the dataset exactly once, in dataset order, slice `k` = scaled model output
+of the volume's `k`-th item — independent of world size, batch size and (in-order) loader. -/
+theorem predict_full_all_ranks_no_crop {α σ} (mul : α → σ → α) (layout : List Nat) (hl : ∀ n ∈ layout, 0 < n)
+    (world : Nat) (hw : 0 < world) (bs : Nat) (hbs : 0 < bs) (fwd : Nat → Img α) (scale : Nat → σ)
+    (recon : Nat → List Nat) (deliver : Loader) (hd : InOrder deliver) :
+    (List.range world).flatMap
+        (fun r => (predictFull mul layout world r bs .none fwd scale recon deliver).1) =
+      (volumes layout).map fun v =>
+        (v.indices.map fun i => (fwd i).map fun row => row.map (mul · (scale i)), v.id) := by
+  have : ∀ r, (predictFull mul layout world r bs .none fwd scale recon deliver).1 =
+      (rankVols layout world r 0).map fun v =>
+        (v.indices.map fun i => (fwd i).map fun row => row.map (mul · (scale i)), v.id) := by
+    intro r; rw [predict_full_no_crop mul layout hl world r bs hbs fwd scale recon deliver hd]
+  simp only [this]
+  rw [← List.map_flatMap, rank_volumes_cover' layout world hw 0]
+  simp [applyLimit]
+
+/-- `center_crop` accepts every size that is positive and fits -/
+theorem processSlice_header_ok {α σ} (mul : α → σ → α) (h w : Nat) (img : Img α) (s : σ) (hh : 0 < h)
+    (hH : h ≤ img.length) (hw : 0 < w) (hW : w ≤ (img.headD []).length) :
+    processSlice mul (some (h, w)) img s =
+      some ((Crop.centerCrop h (img.map fun row => row.map (mul · s))).map (Crop.centerCrop w)) := by
+  unfold processSlice cropImg
+  have e : ((img.map fun row => row.map (mul · s)).headD []).length = (img.headD []).length := by
+    cases img with
+    | nil => rfl
+    | cons r rs => simp
+  simp only [List.length_map, e, Crop.centerCropOk]
+  have h1 : (decide ((0 : Int) < (h : Int)) && decide ((h : Int) ≤ (img.length : Int))) = true := by
+    simp only [Bool.and_eq_true, decide_eq_true_eq]; omega
+  have h2 : (decide ((0 : Int) < (w : Int)) && decide ((w : Int) ≤ ((img.headD []).length : Int))) = true := by
+    simp only [Bool.and_eq_true, decide_eq_true_eq]; omega
+  simp only [h1, h2, Bool.and_self, if_true]
+
+/-- `crop="header"`: every volume of the rank carries **its own** header `reconstruction_size = (x, y, z)`
+(the same for all its items) with `0 < x ≤ height`, `0 < y ≤ width` of the volume's model outputs.  Then
+rank `rank` yields exactly its volumes, each once, slice `k` = the centre `x × y` window (C10) of the
+model output of the volume's `k`-th item times that item's scaling factor — volumes with different image
+shapes and different headers in one loader included. -/
+theorem predict_full_header {α σ} (mul : α → σ → α) (layout : List Nat) (hl : ∀ n ∈ layout, 0 < n)
+    (world rank bs : Nat) (hbs : 0 < bs) (fwd : Nat → Img α) (scale : Nat → σ) (recon : Nat → List Nat)
+    (deliver : Loader) (hd : InOrder deliver)
+    (hhdr : ∀ v ∈ rankVols layout world rank 0, ∃ x y z, 0 < x ∧ 0 < y ∧
+      ∀ i ∈ v.indices, recon i = [x, y, z] ∧ x ≤ (fwd i).length ∧ y ≤ ((fwd i).headD []).length) :
+    predictFull mul layout world rank bs .header fwd scale recon deliver =
+      ((rankVols layout world rank 0).map fun v =>
+        (v.indices.map fun i =>
+          (Crop.centerCrop ((recon i).getD 0 0) ((fwd i).map fun row => row.map (mul · (scale i)))).map
+            (Crop.centerCrop ((recon i).getD 1 0)), v.id), none) := by
+  apply predict_full_spec mul layout hl world rank bs hbs .header fwd scale recon deliver hd
+  intro v hv
+  obtain ⟨x, y, z, hx, hy, hall⟩ := hhdr v hv
+  have hpos := rankVols_pos layout world rank 0 hl v hv
+  have hstart : v.start ∈ v.indices := by
+    rw [Vol.indices, mem_range'_iff]; omega
+  refine ⟨some (x, y), ?_, ?_⟩
+  · rw [(hall v.start hstart).1]; simp [computeResolution]
+  · intro i hi
+    obtain ⟨h1, h2, h3⟩ := hall i hi
+    refine ⟨by rw [h1, (hall v.start hstart).1], ?_⟩
+    rw [processSlice_header_ok mul x y (fwd i) (scale i) hx h2 hy h3, h1]
+    rfl
+
+example : ∃ x y z, 0 < x ∧ 0 < y ∧ ∀ i ∈ ([0, 1] : List Nat),
+    (fun _ => [1, 2, 1]) i = [x, y, z] ∧ x ≤ ([[1, 2, 3], [4, 5, 6]] : Img Int).length ∧
+      y ≤ (([[1, 2, 3], [4, 5, 6]] : Img Int).headD []).length := ⟨1, 2, 1, by decide⟩
+
 -- hypotheses are satisfiable / the definitions compute what one expects
 example : windowOrders 2 [1, 2, 3] = [[1, 2, 3], [1, 3, 2], [2, 1, 3], [2, 3, 1]] := by decide
 -- a slow first batch may arrive arbitrarily late, a batch at most `k - 1` positions early
